@@ -8,6 +8,8 @@
     nonce <send|recv> <iv:hex12> <n>   → n tokens: the nonce of packet 0, 1, … under the statement order the source
                                          has at that site (AST fact in PV.Generated.C04), `overflow` where the counter
                                          step raises (nothing follows)
+    seq <L> <letter:hex1> <n> <K1:int> <H1:hex> <K2:int> <H2:hex> …
+        → after each exchange in turn (`_set_K_H` under the guard fact of PV.Generated.C04): sid:key tokens
   cipher / mac are looked up in the tables regenerated from the source; unknown → `unknown-algo`.
 -/
 import PV.Model.KeyDerive
@@ -54,6 +56,25 @@ def step (line : String) : String :=
         | _, _, _, _ => "unknown-algo"
       | _, _ => "bad-op"
     | none => "bad-op"
+  | "seq" :: l :: letter :: n :: rest =>
+    let rec pairs : List String → Option (List (Int × Bytes))
+      | [] => some []
+      | [_] => none
+      | k :: hh :: more =>
+        match intOfString? k, ofHex? hh, pairs more with
+        | some k, some hh, some r => some ((k, hh) :: r)
+        | _, _, _ => none
+    match l.toNat?, ofHex? letter, n.toNat?, pairs rest with
+    | some l, some [x], some n, some exs =>
+      if l = 0 then "bad-op" else
+      let step := fun (acc : KexState × List String) (e : Int × Bytes) =>
+        let s := setKH PV.Generated.C04.sessionIdGuarded acc.1 e.1 e.2
+        let tok := match s.sessionId, stateKey (toyHash l) s x n with
+          | some sid, some key => toHexTok sid ++ ":" ++ toHexTok key
+          | _, _ => "none"
+        (s, acc.2 ++ [tok])
+      " ".intercalate (exs.foldl step (KexState.init, [])).2
+    | _, _, _, _ => "bad-op"
   | ["nonce", site, iv, n] =>
     let flag? : Option Bool :=
       if site == "send" then some PV.Generated.C04.aeadSendUseFirst
